@@ -5,7 +5,7 @@
    correlation is property C04, and the nine models without analytic spectrum are explored only. *)
 From Coq Require Import Reals ZArith List Bool.
 From Coquelicot Require Import Coquelicot.
-From GS Require Import Num Loops RInst C02_Bochner C02_BochnerInt C02_Model C02_RInst C02_Proofs.
+From GS Require Import Num Loops RInst C02_Bochner C02_BochnerInt C02_Model C02_RInst C02_Proofs C02_Linear.
 Import ListNotations.
 Open Scope R_scope.
 
@@ -47,6 +47,14 @@ Theorem C02_mixture_int_psd : forall (d : nat) (a b : R) (w : R -> R) (Kt : R ->
   psd_on d K.
 Proof. exact mixture_int_psd. Qed.
 Print Assumptions C02_mixture_int_psd.
+
+(* 2d. a class WITHOUT analytic spectrum, proved valid where it claims validity: the code's Linear.cor at any
+       length scale is valid in 1-D (it is the overlap length of two unit intervals = a mixture of rank-one kernels) *)
+Theorem C02_linear_model_valid_1d : forall ora (ell : R) (pts : list (R * vec)), 0 < ell ->
+  List.Forall (fun p => length (snd p) = 1%nat) pts ->
+  0 <= qform (fun x y => cor_linear (Rops02 ora) (nth 0 (vsub x y) 0 / ell)) pts.
+Proof. intros ora ell pts Hl Hd. exact (linear_cor_valid_1d ora ell Hl pts Hd). Qed.
+Print Assumptions C02_linear_model_valid_1d.
 
 (* 3. validity is preserved by every linear map of the lag (anisotropy, rotation, space-time metric):
       cov_spatial evaluates the isotropic model at |M h| *)
@@ -128,23 +136,16 @@ Theorem C02_spectrum_nonneg_HyperSpherical : forall ora (dim : Z) (ell k : R),
 Proof. exact sd_hyperspherical_nonneg. Qed.
 Print Assumptions C02_spectrum_nonneg_HyperSpherical.
 
-(* JBessel: inside the dimension-dependent bound nu >= dim/2 - 1 (strictly above the edge; the edge
-   itself, where scipy's gamma(0) = +inf is cut at 100, is the second statement) *)
+(* JBessel: inside the dimension-dependent bound nu >= dim/2 - 1 (edge included) *)
 Theorem C02_spectrum_nonneg_JBessel : forall ora (dim : Z) (ell nu k : R),
   (forall x, 0 < x -> 0 < ora ORA_GAMMA [x]) ->
-  (1 <= dim)%Z -> in_bounds (Rops02 ora) (cc (IZR dim / 2 - 1) 50) nu = true -> IZR dim / 2 - 1 <> nu ->
+  (1 <= dim)%Z -> in_bounds (Rops02 ora) (cc (IZR dim / 2 - 1) 50) nu = true ->
   0 < ell -> 0 <= k -> 0 <= sd_jbessel (Rops02 ora) dim ell nu k.
 Proof.
-  intros ora dim ell nu k HG Hd Hb Hne Hl Hk. apply (in_bounds_cc ora) in Hb.
-  apply sd_jbessel_nonneg; try assumption. destruct Hb as [[Hb|Hb] _]; [exact Hb|contradiction].
+  intros ora dim ell nu k HG Hd Hb Hl Hk. apply (in_bounds_cc ora) in Hb.
+  apply sd_jbessel_nonneg; try assumption. apply Hb.
 Qed.
 Print Assumptions C02_spectrum_nonneg_JBessel.
-
-Theorem C02_spectrum_nonneg_JBessel_edge : forall ora (dim : Z) (ell k : R),
-  (forall x, 0 < x -> 0 < ora ORA_GAMMA [x]) -> 0 < ora ORA_GAMMA [0] ->
-  (1 <= dim)%Z -> 0 < ell -> 0 <= k -> 0 <= sd_jbessel (Rops02 ora) dim ell (IZR dim / 2 - 1) k.
-Proof. exact sd_jbessel_nonneg_edge. Qed.
-Print Assumptions C02_spectrum_nonneg_JBessel_edge.
 
 Theorem C02_spectrum_nonneg_TPLExponential : forall ora (dim : Z) (ell hurst len_low k : R),
   (forall x, 0 < x -> 0 < ora ORA_GAMMA [x]) ->
